@@ -314,6 +314,36 @@ def c01_extras(tier, rnd):
             items += [Open(cond=al.call("cond")), Code("x", al.call("define", vals)), probe(), CLOSE, probe()]
         items += [Text("post")]
         progs.append(program(items, al.dom, fam="C01.F5:code-%s" % where))
+    # assignment expressions written as interpolations: ${(x := E)} inserts the value and binds the template variable, like
+    # a code block; what a local definition of the same name saved is put back when ITS element ends
+    for where in ("top", "in-element", "in-define", "in-repeat", "raises-on-error", "reads", "global-then", "in-cond", "unreached", "twice"):
+        for bound in (False, True):
+            al = Alloc("quick")
+            w = lambda e: Text("w", asg("x", e), ";")     # noqa: E731
+            items = [Text("pre\n "), probe()]
+            if where == "top":
+                items += [w(al.call("define", vals)), probe(), Open(), probe(), CLOSE]
+            elif where == "in-element":
+                items += [Open(), w(al.call("define", vals)), probe(), CLOSE, probe()]
+            elif where == "in-define":
+                items += [Open(define=[(False, "x", al.call("define", vals))]), probe(), w(al.call("define", [S("b"), NONE])), probe(), CLOSE, probe()]
+            elif where == "in-repeat":
+                items += [Open(rep=(False, "x", al.call("repeat"))), probe(), w(al.call("define", [S("b")])), probe(), CLOSE, probe()]
+            elif where == "raises-on-error":
+                items += [Open(oe=(False, const(S("a")))), Text("a"), w(al.call("define", vals + exc)), probe(), CLOSE, probe()]
+            elif where == "reads":
+                items += [Open(define=[(False, "y", al.call("define", vals))]), w(var("y")), probe(), CLOSE, probe()]
+            elif where == "global-then":
+                items += [Open(define=[(True, "x", al.call("define", vals))]), probe(), CLOSE, w(al.call("define", [S("b")])), probe()]
+            elif where == "in-cond":
+                items += [Open(cond=al.call("cond")), w(al.call("define", vals)), probe(), CLOSE, probe()]
+            elif where == "unreached":
+                items += [Open(cond=const(B(False))), w(al.call("define", vals)), CLOSE, probe(),
+                          Open(define=[(False, "x", al.call("define", [S("b")]))]), probe(), CLOSE, probe()]
+            elif where == "twice":
+                items += [w(al.call("define", [S("a")])), probe(), Open(), w(al.call("define", [S("b")])), probe(), CLOSE, probe()]
+            items += [Text("post")]
+            progs.append(program(items, al.dom, init={"x": S("c")} if bound else {}, fam="C01.F5:asg-%s:%s" % (where, bound)))
     return progs
 
 
@@ -799,8 +829,8 @@ def c04_family(tier, rnd):
             progs.append(program(items, al.dom, fam="C04:cases:%d:%s" % (ncases, nest)))
     # an assignment expression that is never reached (its element is not rendered) binds nothing: the name it mentions is
     # the template variable in every other expression -- bound by render(), by a later tal:define, by a tal:repeat, or
-    # unbound (a lookup error that `|` absorbs).  (A REACHED assignment expression binds the template variable; the
-    # machine has no expression with an effect on the scope, so reached ones use a name of their own: wrap `walrusw`.)
+    # unbound (a lookup error that `|` absorbs).  (A REACHED assignment expression binds the template variable: modelled
+    # for whole interpolations -- C01 F5 asg-*; inside statement expressions reached ones use a name of their own: `walrusw`.)
     for bound in (False, True):
         for site in ("text", "content", "attr", "define"):     # (define: on a child -- a definition precedes its element's condition)
             al = Alloc(tier)
